@@ -9,7 +9,7 @@ UNIT = dict(
     items=[
         ("error_enum", "e"),
         ("impl", "w", "ShardedWriteBuffer", ["add_entries", "drain_entries", "requeue_entries", "is_full"], {"header": "impl ShardedWriteBuffer {"}),
-        ("impl", "w", "WriteBuffer", ["add_write", "add_replacement", "trigger_flush"], {"header": "impl WriteBuffer {"}),
+        ("impl", "w", "WriteBuffer", ["get_shard_id", "add_write", "add_replacement", "trigger_flush"], {"header": "impl WriteBuffer {"}),
     ],
     contracts="contracts.vc",
     spec=["spec.rs"],
